@@ -301,7 +301,7 @@ fn collapse_non_alnum_ascii_lower(s: &str) -> String {
     let mut out = String::with_capacity(s.len());
     out.extend(
         s.chars()
-            .filter(|c| c.is_ascii_alphanumeric())
+            .filter(|c| c.is_alphanumeric())
             .map(|c| c.to_ascii_lowercase()),
     );
     out
@@ -356,7 +356,7 @@ fn tokenize_segment(s: &str) -> Vec<String> {
     let mut tokens = Vec::new();
 
     for piece in s
-        .split(|c: char| !c.is_ascii_alphanumeric())
+        .split(|c: char| !c.is_alphanumeric())
         .filter(|p| !p.is_empty())
     {
         let chars: Vec<char> = piece.chars().collect();
